@@ -410,6 +410,9 @@ def gen_rel(rng, kind=None, depth=0, counter=None):
             return base
         fields = [f for f in base_ref.fields]
         layers = [base]
+        if kind in ('filter', 'check_ids') and rng.random() < 0.3:
+            # the dataset is already guarded: ... >> CheckIds() >> <layers that change ids> >> CheckIds()
+            layers.append({'k': 'check_ids'})
         if kind == 'filter':
             for _ in range(rng.choice([1, 1, 2])):
                 r = rng.random()
@@ -421,7 +424,7 @@ def gen_rel(rng, kind=None, depth=0, counter=None):
                     layers.append({'k': 'keep', 'ids': rng.sample(UNIVERSE, 3)})
                 else:
                     layers.append({'k': 'drop', 'ids': rng.sample(UNIVERSE, 2)})
-            if rng.random() < 0.3:
+            if rng.random() < 0.4:
                 layers.append({'k': 'check_ids'})
         elif kind == 'check_ids':
             if rng.random() < 0.5:
